@@ -49,6 +49,7 @@ def configs(tier):
         cfgs.append(dict(group='confidence_delta_domain', cls=cls, d=1, mode='dynamic'))
         for mode in ('static', 'dynamic'):
             cfgs.append(dict(group='after_update', cls=cls, d=1, q=1, m=1, mode=mode, imputer='default', storage='batch', _cost=30))
+            cfgs.append(dict(group='variance_sample_sign_fp', cls=cls, mode=mode, _cost=300))
     return cfgs
 
 
@@ -318,3 +319,86 @@ def _normalize_binary64_replay(env, cfg):
 
 
 META['explanation'] += ' Further groups: bit-precise binary64 (z3 FP theory) normalisation - finite for every non-zero normaliser including subnormals; views re-read after another explanation follow the new state.'
+
+
+def _variance_sample_sign_fp(env, cfg):
+    """'tracked variances are non-negative' in floating point: under the standard rounding model (every operation returns
+    exact * (1 + delta), |delta| <= 2^-53, all deltas symbolic) every sample the explainer feeds to its variance trackers is
+    >= 0 - for all loss values, all smoothing parameters and all rounding outcomes.  (A square of one rounded difference is;
+    a product of two differently rounded differences is not.)"""
+    import z3
+    from symx import Sym
+    from symx.fp import FPSym
+    from .C20 import _mk_explainer
+    name, dynamic = cfg['cls'], cfg['mode'] == 'dynamic'
+    if env.mode != 'sym':
+        return _variance_sign_replay(env, name, dynamic)
+    n_loss = 2 if name == 'IncrementalPFI' else 3
+    losses = []
+    for t in range(2):
+        for j in range(n_loss):
+            v = env.real(f"l{t}_{j}")
+            env.assume(And(v >= -1000, v <= 1000))
+            losses.append(FPSym(v.t))
+    alpha = None
+    if dynamic:
+        a = env.real('alpha')
+        env.assume(And(a > 0, a <= 1))
+        alpha = FPSym(a.t)
+    ex = guarded(env, 'ctor', _mk_explainer, name, losses, dynamic, alpha, True)
+    captured = []
+    real_update = ex._variance_trackers.update
+
+    def capture(values):
+        captured.append(dict(values))
+        return real_update({k: 0.0 for k in values})      # the tracker arithmetic itself is C10 / C20
+    ex._variance_trackers.update = capture
+    guarded(env, 'explain_one', ex.explain_one, {'f': 1.0}, 0.0)         # seeds the storage only
+    for t in range(2):
+        guarded(env, 'explain_one', ex.explain_one, {'f': 1.0}, 0.0)
+    env.claim('variance_samples_were_observed', len(captured) == 2)
+    for t, c in enumerate(captured):
+        v = c['f']
+        env.claim(f"variance_sample_nonnegative_under_rounding_t{t + 1}", Sym(v.t) >= 0 if isinstance(v, Sym) else v >= 0,
+                  detail='a sample fed to the variance tracker can be negative for some rounding outcome')
+
+
+def _variance_sign_replay(env, name, dynamic):
+    """real binary64 experiment: near-constant streams (the regime where differences are a few ulps) over a grid of smoothing
+    parameters; the tracked variance must never be negative and the confidence bound must stay computable"""
+    import math
+    from .C20 import _mk_explainer
+    bad = None
+    alphas = [round(0.25 + 0.01 * i, 2) for i in range(26)] if dynamic else [None]
+    n_loss = 2 if name == 'IncrementalPFI' else 3
+    for alpha in alphas:
+        for c in (7.4, 3.9, 1.9):
+            vals = [c] * 260 + [math.nextafter(c, 10.0), math.nextafter(math.nextafter(math.nextafter(c, 10.0), 10.0), 10.0)] * 3
+            losses = []
+            for v in vals:
+                losses += ([0.0, v] if n_loss == 2 else [0.0, v, 0.0])     # contribution of the observation = v
+            ex = _mk_explainer(name, losses, dynamic, alpha, True)
+            ex.explain_one({'f': 1.0}, 0.0)
+            for i in range(len(vals)):
+                ex.explain_one({'f': 1.0}, 0.0)
+                var = ex.variances['f']
+                if not var >= 0:
+                    bad = (alpha, c, i + 1, var)
+                    break
+                try:
+                    b = ex.get_confidence_bound(0.1)['f']
+                    if not (b == b and b > 0 and b != float('inf')):
+                        bad = (alpha, c, i + 1, f"bound {b}")
+                        break
+                except (ValueError, ArithmeticError) as exc:
+                    bad = (alpha, c, i + 1, f"get_confidence_bound raised {type(exc).__name__}: {exc}")
+                    break
+            if bad:
+                break
+        if bad:
+            break
+    env.claim('variance_sample_nonnegative_under_rounding', bad is None,
+              detail=f"binary64 run (alpha, stream value, step, what): {bad}")
+
+
+META['explanation'] += ' variance_sample_sign_fp: under the standard rounding model every sample fed to the variance trackers is >= 0 (all loss values, alphas and rounding outcomes); replay = binary64 runs on near-constant streams.'
